@@ -474,6 +474,9 @@ for _pid, _target in (('C06', 'FuzzC06Labels'), ('C07', 'FuzzC07Validation'), ('
 
 PROPS['C14']['units'].append({'test': 'TestC14OtherProcesses', 'helpers': ['digest', {'name': 'digest', 'goarch': '386'}], 'timeout': {'quick': 300, 'thorough': 600}})
 PROPS['C14']['units'].append({'test': 'TestC14FirstUse', 'checks': {'quick': 240, 'thorough': 12000}, 'shards': {'quick': 8, 'thorough': 16}, 'helpers': [{'name': 'racefirst', 'race': True, 'env': 'racefirst'}], 'timeout': {'quick': 300, 'thorough': 1500}})
+PROPS['C05']['units'].append({'test': 'TestC05OtherProcesses', 'helpers': ['digest', {'name': 'digest', 'goarch': '386'}], 'timeout': {'quick': 300, 'thorough': 900}})
+PROPS['C07']['units'].append({'test': 'TestC07OtherProcesses', 'helpers': ['digest', {'name': 'digest', 'goarch': '386'}], 'timeout': {'quick': 300, 'thorough': 900}})
+PROPS['C13']['units'].append({'test': 'TestC13OtherProcesses', 'helpers': ['digest', {'name': 'digest', 'goarch': '386'}], 'timeout': {'quick': 300, 'thorough': 900}})
 PROPS['C07']['units'].append({'test': 'TestC07JsWasm', 'timeout': {'quick': 600, 'thorough': 900}})
 PROPS['C01']['units'].append({'test': 'TestC01OtherProcesses', 'helpers': ['digest', {'name': 'digest', 'goarch': '386'}], 'timeout': {'quick': 300, 'thorough': 900}})
 PROPS['C02']['units'].append({'test': 'TestC02OtherProcesses', 'helpers': ['digest', {'name': 'digest', 'goarch': '386'}], 'timeout': {'quick': 300, 'thorough': 900}})
